@@ -6,12 +6,15 @@
 //         c08_harness run [-v] < programs     -> per program canonical answer lines (see tools/checks/c08.py)
 //
 // Program text (one command per line, decimal numbers, byte strings as hex, "-" = null pointer, "=" = empty string):
-//   P <program index> <arch 0=x86 1=x64 2=a64> <base1> <base2> <flags bit0=pure(R1 meaningful)>
+//   P <program index> <arch 0=x86 1=x64 2=a64> <base1> <base2> <flags bit0=pure(R1 meaningful) bit1=function program (Compiler vs Assembler)
+//                                                 bit2=strict validation (kValidateIntermediate on Builder/Compiler, kValidateAssembler on the Assemblers)>
 //   NL | NS <name> <align>                       new_label / new_section (all holders)
 //   SO <opts> | AO <opts> | SX <sig> <id> | SC <hex>      one-shot emitter state
 //   I <inst_id> <n> (<sig> <id> <d0> <d1>)*n     _emit with operands 0..n-1 (others none)
 //   B <l> | A <mode> <n> | E <hex> | EA <type> <count> <repeat> <hex> | EL <l> <size> | ED <l> <base> <size>
 //   CP <l> <align> <itemsize> <hex> | CM <hex> | S <section id>
+//   FN | FR | FE                                 Compiler: add_func(void()) / ret() / end_func(); reference: labels + emit_prolog/emit_epilog(frame)
+//   SN <type>                                    Builder/Compiler: new_node_t<SentinelNode> + add_node; Assembler: nothing
 //   CPN <align> <itemsize> <hex>                 Builder/Compiler: new_const_pool_node + add + add_node; Assembler: new_label + embed_const_pool
 //   SCUR <idx|-1> | RM <idx> | RMR <i> <j> | RMP <k> | AA <k> <idx> | AB <k> <idx> | AN <k> | USL    node-list edits (Builder/Compiler only)
 //   X                                            what follows is the reference program for the Assembler (oracle's edited sequence);
@@ -97,6 +100,9 @@ static std::string node_str(BaseNode* n) {
       break;
     }
     case NodeType::kComment: s = "C"; break;
+    case NodeType::kFunc: s = "FUNC " + u(n->as<FuncNode>()->label_id()) + " " + u(n->as<FuncNode>()->exit_node()->label_id()); break;
+    case NodeType::kFuncRet: s = "FRET"; break;
+    case NodeType::kSentinel: s = "SN " + u(uint32_t(n->as<SentinelNode>()->sentinel_type())); break;
     case NodeType::kConstPool: {
       ConstPoolNode* cp = n->as<ConstPoolNode>();
       std::vector<uint8_t> buf(cp->size() + 1);
@@ -148,7 +154,9 @@ static std::string dump(BuilderCtx& bc, uint32_t nsections) {
     if (b->has_registered_section_node(i)) { SectionNode* sn = b->_section_nodes[i]; if (sn->_next_section) nx = long(sn->_next_section->section_id()); }
     s += (i ? "," : "") + std::to_string(nx);
   }
-  s += " last=" + std::string(b->last_node() == (act.empty() ? nullptr : act.back()) ? "ok" : "BAD") + " |";
+  s += " last=" + std::string(b->last_node() == (act.empty() ? nullptr : act.back()) ? "ok" : "BAD");
+  // the emitter's pending one-shot state (what the next _emit / add_func / add_ret would capture)
+  s += " pend=" + u(uint32_t(b->inst_options())) + "," + u(b->extra_reg()._signature._bits) + "," + u(b->extra_reg()._id) + "," + comment_str(b->inline_comment()) + " |";
   for (BaseNode* n : act) s += n ? (" " + node_str(n) + " ;") : " BROKEN-PREV ;";
   s += " ||";
   for (BaseNode* n : bc.pool) {
@@ -166,6 +174,10 @@ struct Env {
   std::deque<std::string> strings;   // inline comments must stay alive until consumed
   Arena pool_arena{4096};
   bool guard_failed = false;
+  // function programs (Compiler only): frames of the FuncNodes of the Compiler run, consumed in order by the reference Assembler
+  const std::vector<FuncFrame>* frames = nullptr;
+  size_t func_index = 0;
+  std::vector<Label> exit_labels;
 };
 
 static uint32_t apply(BaseEmitter* e, Env& env, const Cmd& c) {
@@ -230,6 +242,45 @@ static uint32_t apply(BaseEmitter* e, Env& env, const Cmd& c) {
     ConstPool pool(env.pool_arena);
     for (size_t i = 0; i + item <= b.size(); i += item) { size_t off; (void)pool.add(b.data() + i, item, Out(off)); }
     return uint32_t(e->embed_const_pool(l, pool));
+  }
+  if (k == "FN" || k == "FR" || k == "FE") {
+    // FN = add_func(void()), FR = ret(), FE = end_func(): Compiler only.  Reference (Assembler): the exit label and the function label are
+    // created in the Compiler's order, the function label is bound, emit_prolog(frame of that FuncNode); a ret directly before end_func
+    // falls through; end_func = bind(exit label) + emit_epilog(frame).
+    if (e->is_compiler()) {
+      BaseCompiler* cc = static_cast<BaseCompiler*>(e);
+      if (k == "FN") { FuncNode* f = nullptr; return uint32_t(cc->add_func_node(Out(f), FuncSignature::build<void>())); }
+      if (k == "FR") { FuncRetNode* r = nullptr; return uint32_t(cc->add_func_ret_node(Out(r), Operand(), Operand())); }
+      return uint32_t(cc->end_func());
+    }
+    if (e->is_builder()) return 9994;
+    // add_func_node / add_func_ret_node / end_func consume the pending one-shot state (_grab_state / reset_state)
+    e->reset_inst_options(); e->reset_extra_reg(); e->reset_inline_comment();
+    if (k == "FN") {
+      Label x = e->new_label(); Label f = e->new_label();
+      env.exit_labels.push_back(x);
+      uint32_t err = uint32_t(e->bind(f));
+      if (err) return err;
+      if (!env.frames || env.func_index >= env.frames->size()) return 9993;
+      return uint32_t(e->emit_prolog((*env.frames)[env.func_index]));
+    }
+    if (k == "FR") return 0;
+    if (env.exit_labels.empty() || !env.frames || env.func_index >= env.frames->size()) return 9993;
+    uint32_t err = uint32_t(e->bind(env.exit_labels.back()));
+    env.exit_labels.pop_back();
+    if (err) return err;
+    return uint32_t(e->emit_epilog((*env.frames)[env.func_index++]));
+  }
+  if (k == "SN") {
+    // a SentinelNode: informative, serialize_to emits nothing for it; the Assembler has no counterpart call
+    if (e->is_builder() || e->is_compiler()) {
+      BaseBuilder* bb = static_cast<BaseBuilder*>(e);
+      SentinelNode* node = nullptr;
+      Error err = bb->new_node_t<SentinelNode>(Out(node), SentinelType(uint8_t(num(a[0]))));
+      if (err != Error::kOk) return uint32_t(err);
+      bb->add_node(node);
+    }
+    return 0;
   }
   if (k == "CM") {
     // the string is kept alive: new_comment_node() stores the caller's pointer (no copy) when the comment is empty
@@ -302,11 +353,13 @@ static Arch arch_of(int a) { return a == 0 ? Arch::kX86 : a == 1 ? Arch::kX64 : 
 
 template <typename AsmT>
 static void run_reference(const Program& p, int which_base, bool use_ref, const std::vector<uint32_t>* skip_origin_errs, bool stop_at_error,
-                          std::vector<uint32_t>& errs, std::string& img, bool& guard) {
+                          std::vector<uint32_t>& errs, std::string& img, bool& guard, const std::vector<FuncFrame>* frames = nullptr) {
   Env env;
+  env.frames = frames;
   env.code.init(Environment(arch_of(p.arch)));
   env.sections.push_back(env.code.text_section());
   AsmT a(&env.code);
+  if (p.flags & 4) a.add_diagnostic_options(DiagnosticOptions::kValidateAssembler);
   const std::vector<Cmd>& cs = use_ref ? p.ref : p.cmds;
   // NL/NS of the builder program are holder-level facts: in the reference program they are replayed first
   if (use_ref) for (const Cmd& c : p.cmds) {
@@ -328,11 +381,12 @@ static void run_reference(const Program& p, int which_base, bool use_ref, const 
 
 template <typename BuilderT>
 static void run_builder(const Program& p, int which_base, bool verbose, const char* tag, int pidx,
-                        std::vector<uint32_t>& errs, uint32_t& ferr, std::string& img, std::string& out) {
+                        std::vector<uint32_t>& errs, uint32_t& ferr, std::string& img, std::string& out, std::vector<FuncFrame>* frames_out = nullptr) {
   Env env;
   env.code.init(Environment(arch_of(p.arch)));
   env.sections.push_back(env.code.text_section());
   BuilderT b(&env.code);
+  if (p.flags & 4) b.add_diagnostic_options(DiagnosticOptions::kValidateIntermediate);
   BuilderCtx bc; bc.b = &b;
   char buf[128];
   bool corrupt = false;
@@ -356,7 +410,10 @@ static void run_builder(const Program& p, int which_base, bool verbose, const ch
     }
   }
   if (which_base == 0) out += "p" + std::to_string(pidx) + " " + (tag[4] ? "DUMPC " : "DUMP ") + (corrupt ? std::string("CORRUPT") : dump(bc, uint32_t(env.sections.size()))) + "\n";
-  ferr = corrupt ? 9995 : b.first_node() ? uint32_t(b.finalize()) : 9996;   // an empty list cannot be serialized by the pinned code (do/while on a null first node)
+  ferr = corrupt ? 9995 : b.first_node() ? uint32_t(b.finalize()) : 9996;
+  if (frames_out && !corrupt)
+    for (BaseNode* n = b.first_node(); n; n = n->next())
+      if (n->type() == NodeType::kFunc) frames_out->push_back(static_cast<FuncNode*>(n)->frame());   // an empty list cannot be serialized by the pinned code (do/while on a null first node)
   img = image(env.code, p.base[which_base]);
   if (env.guard_failed) out += "p" + std::to_string(pidx) + " GUARD-FAILED constpool\n";
 }
@@ -367,6 +424,19 @@ template <typename AsmT, typename BuilderT, typename CompilerT>
 static void run_program_t(const Program& p, int pidx, bool verbose) {
   std::string out;
   std::string P = "p" + std::to_string(pidx) + " ";
+  if (p.flags & 2) {
+    // function program: Compiler vs Assembler-with-the-Compiler's-frames
+    for (int wb = 0; wb < 2; wb++) {
+      std::vector<uint32_t> ec, e1; uint32_t fc = 0; std::string ic, i1; bool guard = false; std::vector<FuncFrame> frames;
+      run_builder<CompilerT>(p, wb, verbose, "STEPF", pidx, ec, fc, ic, out, &frames);
+      run_reference<AsmT>(p, wb, false, nullptr, false, e1, i1, guard, &frames);
+      if (wb == 0) { out += P + "EA " + errs_str(e1) + "\n"; out += P + "EC " + errs_str(ec) + " F=" + u(fc) + "\n"; out += P + "NFRAMES " + u(frames.size()) + "\n"; }
+      out += P + "IMG" + std::to_string(wb) + " R1 " + i1 + "\n";
+      out += P + "IMG" + std::to_string(wb) + " C " + ic + "\n";
+    }
+    fputs(out.c_str(), stdout);
+    return;
+  }
   for (int wb = 0; wb < 2; wb++) {
     std::vector<uint32_t> eb, ec, e1, e2; uint32_t fb = 0, fc = 0; std::string ib, ic, i1, i2; bool guard = false;
     run_builder<BuilderT>(p, wb, verbose, "STEP", pidx, eb, fb, ib, out);
